@@ -38,7 +38,7 @@ func (c *CUOnly) UnmarshalJSON(b []byte) error {
 // CPtr has a faithful pair, both on the pointer receiver; only unexported state.
 type CPtr struct{ values []int64 }
 
-func (c *CPtr) MarshalJSON() ([]byte, error)  { return json.Marshal(c.values) }
+func (c *CPtr) MarshalJSON() ([]byte, error) { return json.Marshal(c.values) }
 func (c *CPtr) UnmarshalJSON(b []byte) error { return json.Unmarshal(b, &c.values) }
 
 // CPtrMix has a faithful pointer-receiver pair over one exported and one unexported field.
